@@ -322,7 +322,7 @@ class DirectCalendar(IWorkCalendar):
             return None
 
     def set_units(self, units: Dict[datetime, float]):
-        self.__units = self.__units | units
+        self.__units = self.__units | {_day_start(k): v for k, v in units.items()}
 
     @property
     def dates(self):
